@@ -25,7 +25,7 @@ try:
                     t = f.read_text()
                 except Exception:
                     continue
-                m = re.search(r"/tmp/seed-C\d\d", t)
+                m = re.search(r"/tmp/seed[A-Z]?-C\d\d", t)
                 if m:
                     orig = m.group(0)
                     f.write_text(t.replace(orig, str(wt)).replace(str(seed), str(d)))
